@@ -1,1 +1,273 @@
-//! C09 — (harnesses not written yet)
+//! C09 — any interleaving of writes and finalize calls yields the same files as drop.
+use crate::env::*;
+use crate::model::*;
+use crate::refcodec::*;
+use shapefile::record::{ConcreteReadableShape, ReadableShape, WritableShape};
+use shapefile::*;
+
+/// One history of `L` operations over {0: write a, 1: write b, 2: finalize}, run with both
+/// endings (drop | finalize then drop); shape payloads symbolic. (Enumerating many histories
+/// inside one harness makes CBMC's symbolic execution slow down quadratically, and symbolic
+/// operation choices cost more than the sum of the concrete histories; so: one harness per
+/// history, all histories up to the bound generated below.)
+/// Oracle: a second writer fed only the writes, then dropped.
+pub fn history<S: TShape, const N: usize, const L: usize>(sa: &Spec, sb: &Spec, with_shx: bool, ops: [u8; L]) {
+    let ma = sym_spec(S::CODE, sa);
+    let mb = sym_spec(S::CODE, sb);
+    let a = S::build(&ma);
+    let b = S::build(&mb);
+    one_history::<S, N, L>(&a, &b, &ops, false, with_shx);
+    one_history::<S, N, L>(&a, &b, &ops, true, with_shx);
+    kani::cover!(true, "history explored with both endings");
+}
+
+fn one_history<S: TShape, const N: usize, const L: usize>(a: &S, b: &S, ops: &[u8; L], end_finalize: bool, with_shx: bool) {
+    let rec = 8 + 4; // record header + type code; content sizes come from the shapes
+    let size_a = rec + a.size_in_bytes();
+    let size_b = rec + b.size_in_bytes();
+    let mut shp = MemFile::<N>::new();
+    let mut shx = MemFile::<N>::new();
+    // expected effective finalizes (specification: a finalize commits iff something was
+    // written since the last successful finalize, or nothing was ever committed)
+    let mut exp_len = [0usize; 8];
+    let mut exp_writes = [0usize; 8];
+    let mut eff = 0usize;
+    {
+        let mut w = if with_shx {
+            ShapeWriter::with_shx(&mut shp, &mut shx)
+        } else {
+            ShapeWriter::new(&mut shp)
+        };
+        let mut dirty = true;
+        let mut writes = 0usize;
+        let mut len = 0usize;
+        let mut k = 0;
+        while k < L + 2 {
+            // L operations of the history, then the optional explicit finalize, then drop
+            let op = if k < L { ops[k] } else if k == L { if end_finalize { 2 } else { 3 } } else { 2 };
+            if op == 2 {
+                if k < L + 1 {
+                    let r = w.finalize();
+                    assert!(r.is_ok());
+                    std::mem::forget(r);
+                }
+                if dirty {
+                    if len == 0 {
+                        len = 100;
+                    }
+                    exp_len[eff] = len;
+                    exp_writes[eff] = writes;
+                    eff += 1;
+                    dirty = false;
+                }
+            } else if op < 2 {
+                let r = if op == 0 { w.write_shape(a) } else { w.write_shape(b) };
+                assert!(r.is_ok());
+                std::mem::forget(r);
+                if len == 0 {
+                    len = 100;
+                }
+                len += if op == 0 { size_a } else { size_b };
+                writes += 1;
+                dirty = true;
+            }
+            k += 1;
+        }
+    }
+    // every effective finalize flushed both files once, with consistent committed lengths and the
+    // destination repositioned at its end; finalizes with nothing new did no seek / flush at all
+    assert!(shp.n_flush as usize == eff, ".shp flush count differs from the number of effective finalizes");
+    let mut e = 0;
+    while e < eff {
+        let (l, h, p) = shp.flog[e];
+        assert!(l == exp_len[e], ".shp length at finalize differs from header + records written so far");
+        assert!(h as usize * 2 == l, "header length field at finalize differs from the file length");
+        assert!(p == l, ".shp not repositioned at its end after finalize");
+        e += 1;
+    }
+    if with_shx {
+        assert!(shx.n_flush as usize == eff);
+        let mut e = 0;
+        while e < eff {
+            let (l, h, p) = shx.flog[e];
+            assert!(h as usize == 50 + 4 * exp_writes[e], ".shx header at finalize does not count the shapes written so far");
+            assert!(exp_writes[e] == 0 || l == 100 + 8 * exp_writes[e], ".shx length at finalize");
+            assert!(p == l);
+            e += 1;
+        }
+    }
+    // reference: same writes, no finalize, drop
+    let mut rshp = MemFile::<N>::new();
+    let mut rshx = MemFile::<N>::new();
+    {
+        let mut w = if with_shx {
+            ShapeWriter::with_shx(&mut rshp, &mut rshx)
+        } else {
+            ShapeWriter::new(&mut rshp)
+        };
+        let mut k = 0;
+        while k < L {
+            if ops[k] != 2 {
+                let r = if ops[k] == 0 { w.write_shape(a) } else { w.write_shape(b) };
+                assert!(r.is_ok());
+                std::mem::forget(r);
+            }
+            k += 1;
+        }
+    }
+    // no I/O beyond the writes and the effective finalizes: the reference run holds the same writes and
+    // one effective finalize (at drop); a writer that is only created and dropped gives the cost of one
+    // effective finalize; a finalize with nothing new to commit must add nothing to any counter
+    let mut eshp = MemFile::<N>::new();
+    let mut eshx = MemFile::<N>::new();
+    {
+        let _w = if with_shx {
+            ShapeWriter::with_shx(&mut eshp, &mut eshx)
+        } else {
+            ShapeWriter::new(&mut eshp)
+        };
+    }
+    assert!(eff >= 1);
+    assert!(shp.ops() == rshp.ops() + (eff as u32 - 1) * eshp.ops(), "I/O on the .shp beyond the writes and the effective finalizes (a finalize with nothing new to commit must do none)");
+    if with_shx {
+        assert!(shx.ops() == rshx.ops() + (eff as u32 - 1) * eshx.ops(), "I/O on the .shx beyond the writes and the effective finalizes");
+    }
+    assert!(same_image(&shp, &rshp), ".shp differs from the one produced by the same writes and a plain drop");
+    if with_shx {
+        assert!(same_image(&shx, &rshx), ".shx differs from the one produced by the same writes and a plain drop");
+    }
+}
+
+const PT: Spec = spec(&[]);
+const PL2: Spec = spec(&[2]);
+const PL3: Spec = spec(&[3]);
+
+macro_rules! hist {
+    ($name:ident, $T:ty, $N:expr, $L:expr, $a:expr, $b:expr, $shx:expr, $ops:expr) => {
+        #[kani::proof]
+        #[kani::unwind(60)]
+        fn $name() {
+            history::<$T, $N, $L>(&$a, &$b, $shx, $ops);
+        }
+    };
+}
+// H: tier=quick; unwind=60; sym=payload of shapes a,b (2 f64 each); history=[write a, write a] x {drop, finalize+drop}; shx=True; asserts=final images identical to writes-only+drop; each effective finalize flushes once, repositions at the end and commits the right lengths (.shp length field, .shx 50+4k); finalize with nothing new does no seek/flush
+hist!(c09_q_point_shx_aa, Point, 320, 2, PT, PT, true, [0, 0]);
+// H: tier=quick; unwind=60; sym=payload of shapes a,b (2 f64 each); history=[write a, write b] x {drop, finalize+drop}; shx=True; asserts=final images identical to writes-only+drop; each effective finalize flushes once, repositions at the end and commits the right lengths (.shp length field, .shx 50+4k); finalize with nothing new does no seek/flush
+hist!(c09_q_point_shx_ab, Point, 320, 2, PT, PT, true, [0, 1]);
+// H: tier=quick; unwind=60; sym=payload of shapes a,b (2 f64 each); history=[write a, finalize] x {drop, finalize+drop}; shx=True; asserts=final images identical to writes-only+drop; each effective finalize flushes once, repositions at the end and commits the right lengths (.shp length field, .shx 50+4k); finalize with nothing new does no seek/flush
+hist!(c09_q_point_shx_af, Point, 320, 2, PT, PT, true, [0, 2]);
+// H: tier=quick; unwind=60; sym=payload of shapes a,b (2 f64 each); history=[finalize, write a] x {drop, finalize+drop}; shx=True; asserts=final images identical to writes-only+drop; each effective finalize flushes once, repositions at the end and commits the right lengths (.shp length field, .shx 50+4k); finalize with nothing new does no seek/flush
+hist!(c09_q_point_shx_fa, Point, 320, 2, PT, PT, true, [2, 0]);
+// H: tier=quick; unwind=60; sym=payload of shapes a,b (2 f64 each); history=[finalize, write b] x {drop, finalize+drop}; shx=True; asserts=final images identical to writes-only+drop; each effective finalize flushes once, repositions at the end and commits the right lengths (.shp length field, .shx 50+4k); finalize with nothing new does no seek/flush
+hist!(c09_q_point_shx_fb, Point, 320, 2, PT, PT, true, [2, 1]);
+// H: tier=quick; unwind=60; sym=payload of shapes a,b (2 f64 each); history=[finalize, finalize] x {drop, finalize+drop}; shx=True; asserts=final images identical to writes-only+drop; each effective finalize flushes once, repositions at the end and commits the right lengths (.shp length field, .shx 50+4k); finalize with nothing new does no seek/flush
+hist!(c09_q_point_shx_ff, Point, 320, 2, PT, PT, true, [2, 2]);
+// H: tier=quick; unwind=60; sym=payload of shapes a,b (4 f64 each; Z/M ranges in the header); history=[finalize, write a, finalize] x {drop, finalize+drop}; shx=True; asserts=final images identical to writes-only+drop; each effective finalize flushes once, repositions at the end and commits the right lengths (.shp length field, .shx 50+4k); finalize with nothing new does no seek/flush
+hist!(c09_q_pointz_shx_faf, PointZ, 384, 3, PT, PT, true, [2, 0, 2]);
+// H: tier=quick; unwind=60; sym=payload of shapes a,b (4 f64 each; Z/M ranges in the header); history=[write a, finalize, write b] x {drop, finalize+drop}; shx=True; asserts=final images identical to writes-only+drop; each effective finalize flushes once, repositions at the end and commits the right lengths (.shp length field, .shx 50+4k); finalize with nothing new does no seek/flush
+hist!(c09_q_pointz_shx_afb, PointZ, 384, 3, PT, PT, true, [0, 2, 1]);
+// H: tier=quick; unwind=60; sym=payload of shapes a,b (4 f64 each; Z/M ranges in the header); history=[finalize, finalize, write a] x {drop, finalize+drop}; shx=True; asserts=final images identical to writes-only+drop; each effective finalize flushes once, repositions at the end and commits the right lengths (.shp length field, .shx 50+4k); finalize with nothing new does no seek/flush
+hist!(c09_q_pointz_shx_ffa, PointZ, 384, 3, PT, PT, true, [2, 2, 0]);
+// H: tier=quick; unwind=60; sym=payload of shapes a,b (2 f64 each); history=[finalize, write a, write b] x {drop, finalize+drop}; shx=False; asserts=final images identical to writes-only+drop; each effective finalize flushes once, repositions at the end and commits the right lengths (.shp length field, .shx 50+4k); finalize with nothing new does no seek/flush
+hist!(c09_q_point_noshx_fab, Point, 320, 3, PT, PT, false, [2, 0, 1]);
+// H: tier=thorough; unwind=60; sym=payload of shapes a,b (2 f64 each); history=[write a, write a, write a] x {drop, finalize+drop}; shx=True; asserts=final images identical to writes-only+drop; each effective finalize flushes once, repositions at the end and commits the right lengths (.shp length field, .shx 50+4k); finalize with nothing new does no seek/flush
+hist!(c09_t_point_shx_aaa, Point, 352, 3, PT, PT, true, [0, 0, 0]);
+// H: tier=thorough; unwind=60; sym=payload of shapes a,b (2 f64 each); history=[write a, write a, write b] x {drop, finalize+drop}; shx=True; asserts=final images identical to writes-only+drop; each effective finalize flushes once, repositions at the end and commits the right lengths (.shp length field, .shx 50+4k); finalize with nothing new does no seek/flush
+hist!(c09_t_point_shx_aab, Point, 352, 3, PT, PT, true, [0, 0, 1]);
+// H: tier=thorough; unwind=60; sym=payload of shapes a,b (2 f64 each); history=[write a, write a, finalize] x {drop, finalize+drop}; shx=True; asserts=final images identical to writes-only+drop; each effective finalize flushes once, repositions at the end and commits the right lengths (.shp length field, .shx 50+4k); finalize with nothing new does no seek/flush
+hist!(c09_t_point_shx_aaf, Point, 352, 3, PT, PT, true, [0, 0, 2]);
+// H: tier=thorough; unwind=60; sym=payload of shapes a,b (2 f64 each); history=[write a, write b, write a] x {drop, finalize+drop}; shx=True; asserts=final images identical to writes-only+drop; each effective finalize flushes once, repositions at the end and commits the right lengths (.shp length field, .shx 50+4k); finalize with nothing new does no seek/flush
+hist!(c09_t_point_shx_aba, Point, 352, 3, PT, PT, true, [0, 1, 0]);
+// H: tier=thorough; unwind=60; sym=payload of shapes a,b (2 f64 each); history=[write a, write b, write b] x {drop, finalize+drop}; shx=True; asserts=final images identical to writes-only+drop; each effective finalize flushes once, repositions at the end and commits the right lengths (.shp length field, .shx 50+4k); finalize with nothing new does no seek/flush
+hist!(c09_t_point_shx_abb, Point, 352, 3, PT, PT, true, [0, 1, 1]);
+// H: tier=thorough; unwind=60; sym=payload of shapes a,b (2 f64 each); history=[write a, write b, finalize] x {drop, finalize+drop}; shx=True; asserts=final images identical to writes-only+drop; each effective finalize flushes once, repositions at the end and commits the right lengths (.shp length field, .shx 50+4k); finalize with nothing new does no seek/flush
+hist!(c09_t_point_shx_abf, Point, 352, 3, PT, PT, true, [0, 1, 2]);
+// H: tier=thorough; unwind=60; sym=payload of shapes a,b (2 f64 each); history=[write a, finalize, write a] x {drop, finalize+drop}; shx=True; asserts=final images identical to writes-only+drop; each effective finalize flushes once, repositions at the end and commits the right lengths (.shp length field, .shx 50+4k); finalize with nothing new does no seek/flush
+hist!(c09_t_point_shx_afa, Point, 352, 3, PT, PT, true, [0, 2, 0]);
+// H: tier=thorough; unwind=60; sym=payload of shapes a,b (2 f64 each); history=[write a, finalize, write b] x {drop, finalize+drop}; shx=True; asserts=final images identical to writes-only+drop; each effective finalize flushes once, repositions at the end and commits the right lengths (.shp length field, .shx 50+4k); finalize with nothing new does no seek/flush
+hist!(c09_t_point_shx_afb, Point, 352, 3, PT, PT, true, [0, 2, 1]);
+// H: tier=thorough; unwind=60; sym=payload of shapes a,b (2 f64 each); history=[write a, finalize, finalize] x {drop, finalize+drop}; shx=True; asserts=final images identical to writes-only+drop; each effective finalize flushes once, repositions at the end and commits the right lengths (.shp length field, .shx 50+4k); finalize with nothing new does no seek/flush
+hist!(c09_t_point_shx_aff, Point, 352, 3, PT, PT, true, [0, 2, 2]);
+// H: tier=thorough; unwind=60; sym=payload of shapes a,b (2 f64 each); history=[finalize, write a, write a] x {drop, finalize+drop}; shx=True; asserts=final images identical to writes-only+drop; each effective finalize flushes once, repositions at the end and commits the right lengths (.shp length field, .shx 50+4k); finalize with nothing new does no seek/flush
+hist!(c09_t_point_shx_faa, Point, 352, 3, PT, PT, true, [2, 0, 0]);
+// H: tier=thorough; unwind=60; sym=payload of shapes a,b (2 f64 each); history=[finalize, write a, write b] x {drop, finalize+drop}; shx=True; asserts=final images identical to writes-only+drop; each effective finalize flushes once, repositions at the end and commits the right lengths (.shp length field, .shx 50+4k); finalize with nothing new does no seek/flush
+hist!(c09_t_point_shx_fab, Point, 352, 3, PT, PT, true, [2, 0, 1]);
+// H: tier=thorough; unwind=60; sym=payload of shapes a,b (2 f64 each); history=[finalize, write a, finalize] x {drop, finalize+drop}; shx=True; asserts=final images identical to writes-only+drop; each effective finalize flushes once, repositions at the end and commits the right lengths (.shp length field, .shx 50+4k); finalize with nothing new does no seek/flush
+hist!(c09_t_point_shx_faf, Point, 352, 3, PT, PT, true, [2, 0, 2]);
+// H: tier=thorough; unwind=60; sym=payload of shapes a,b (2 f64 each); history=[finalize, write b, write a] x {drop, finalize+drop}; shx=True; asserts=final images identical to writes-only+drop; each effective finalize flushes once, repositions at the end and commits the right lengths (.shp length field, .shx 50+4k); finalize with nothing new does no seek/flush
+hist!(c09_t_point_shx_fba, Point, 352, 3, PT, PT, true, [2, 1, 0]);
+// H: tier=thorough; unwind=60; sym=payload of shapes a,b (2 f64 each); history=[finalize, write b, write b] x {drop, finalize+drop}; shx=True; asserts=final images identical to writes-only+drop; each effective finalize flushes once, repositions at the end and commits the right lengths (.shp length field, .shx 50+4k); finalize with nothing new does no seek/flush
+hist!(c09_t_point_shx_fbb, Point, 352, 3, PT, PT, true, [2, 1, 1]);
+// H: tier=thorough; unwind=60; sym=payload of shapes a,b (2 f64 each); history=[finalize, write b, finalize] x {drop, finalize+drop}; shx=True; asserts=final images identical to writes-only+drop; each effective finalize flushes once, repositions at the end and commits the right lengths (.shp length field, .shx 50+4k); finalize with nothing new does no seek/flush
+hist!(c09_t_point_shx_fbf, Point, 352, 3, PT, PT, true, [2, 1, 2]);
+// H: tier=thorough; unwind=60; sym=payload of shapes a,b (2 f64 each); history=[finalize, finalize, write a] x {drop, finalize+drop}; shx=True; asserts=final images identical to writes-only+drop; each effective finalize flushes once, repositions at the end and commits the right lengths (.shp length field, .shx 50+4k); finalize with nothing new does no seek/flush
+hist!(c09_t_point_shx_ffa, Point, 352, 3, PT, PT, true, [2, 2, 0]);
+// H: tier=thorough; unwind=60; sym=payload of shapes a,b (2 f64 each); history=[finalize, finalize, write b] x {drop, finalize+drop}; shx=True; asserts=final images identical to writes-only+drop; each effective finalize flushes once, repositions at the end and commits the right lengths (.shp length field, .shx 50+4k); finalize with nothing new does no seek/flush
+hist!(c09_t_point_shx_ffb, Point, 352, 3, PT, PT, true, [2, 2, 1]);
+// H: tier=thorough; unwind=60; sym=payload of shapes a,b (2 f64 each); history=[finalize, finalize, finalize] x {drop, finalize+drop}; shx=True; asserts=final images identical to writes-only+drop; each effective finalize flushes once, repositions at the end and commits the right lengths (.shp length field, .shx 50+4k); finalize with nothing new does no seek/flush
+hist!(c09_t_point_shx_fff, Point, 352, 3, PT, PT, true, [2, 2, 2]);
+// H: tier=thorough; unwind=60; sym=payload of shapes a,b (PolylineM of 2 and 3 points: records of different sizes); history=[write a, write a] x {drop, finalize+drop}; shx=True; asserts=final images identical to writes-only+drop; each effective finalize flushes once, repositions at the end and commits the right lengths (.shp length field, .shx 50+4k); finalize with nothing new does no seek/flush
+hist!(c09_t_polylinem_shx_aa, PolylineM, 640, 2, PL2, PL3, true, [0, 0]);
+// H: tier=thorough; unwind=60; sym=payload of shapes a,b (PolylineM of 2 and 3 points: records of different sizes); history=[write a, write b] x {drop, finalize+drop}; shx=True; asserts=final images identical to writes-only+drop; each effective finalize flushes once, repositions at the end and commits the right lengths (.shp length field, .shx 50+4k); finalize with nothing new does no seek/flush
+hist!(c09_t_polylinem_shx_ab, PolylineM, 640, 2, PL2, PL3, true, [0, 1]);
+// H: tier=thorough; unwind=60; sym=payload of shapes a,b (PolylineM of 2 and 3 points: records of different sizes); history=[write a, finalize] x {drop, finalize+drop}; shx=True; asserts=final images identical to writes-only+drop; each effective finalize flushes once, repositions at the end and commits the right lengths (.shp length field, .shx 50+4k); finalize with nothing new does no seek/flush
+hist!(c09_t_polylinem_shx_af, PolylineM, 640, 2, PL2, PL3, true, [0, 2]);
+// H: tier=thorough; unwind=60; sym=payload of shapes a,b (PolylineM of 2 and 3 points: records of different sizes); history=[write b, write a] x {drop, finalize+drop}; shx=True; asserts=final images identical to writes-only+drop; each effective finalize flushes once, repositions at the end and commits the right lengths (.shp length field, .shx 50+4k); finalize with nothing new does no seek/flush
+hist!(c09_t_polylinem_shx_ba, PolylineM, 640, 2, PL2, PL3, true, [1, 0]);
+// H: tier=thorough; unwind=60; sym=payload of shapes a,b (PolylineM of 2 and 3 points: records of different sizes); history=[write b, write b] x {drop, finalize+drop}; shx=True; asserts=final images identical to writes-only+drop; each effective finalize flushes once, repositions at the end and commits the right lengths (.shp length field, .shx 50+4k); finalize with nothing new does no seek/flush
+hist!(c09_t_polylinem_shx_bb, PolylineM, 640, 2, PL2, PL3, true, [1, 1]);
+// H: tier=thorough; unwind=60; sym=payload of shapes a,b (PolylineM of 2 and 3 points: records of different sizes); history=[write b, finalize] x {drop, finalize+drop}; shx=True; asserts=final images identical to writes-only+drop; each effective finalize flushes once, repositions at the end and commits the right lengths (.shp length field, .shx 50+4k); finalize with nothing new does no seek/flush
+hist!(c09_t_polylinem_shx_bf, PolylineM, 640, 2, PL2, PL3, true, [1, 2]);
+// H: tier=thorough; unwind=60; sym=payload of shapes a,b (PolylineM of 2 and 3 points: records of different sizes); history=[finalize, write a] x {drop, finalize+drop}; shx=True; asserts=final images identical to writes-only+drop; each effective finalize flushes once, repositions at the end and commits the right lengths (.shp length field, .shx 50+4k); finalize with nothing new does no seek/flush
+hist!(c09_t_polylinem_shx_fa, PolylineM, 640, 2, PL2, PL3, true, [2, 0]);
+// H: tier=thorough; unwind=60; sym=payload of shapes a,b (PolylineM of 2 and 3 points: records of different sizes); history=[finalize, write b] x {drop, finalize+drop}; shx=True; asserts=final images identical to writes-only+drop; each effective finalize flushes once, repositions at the end and commits the right lengths (.shp length field, .shx 50+4k); finalize with nothing new does no seek/flush
+hist!(c09_t_polylinem_shx_fb, PolylineM, 640, 2, PL2, PL3, true, [2, 1]);
+// H: tier=thorough; unwind=60; sym=payload of shapes a,b (PolylineM of 2 and 3 points: records of different sizes); history=[finalize, finalize] x {drop, finalize+drop}; shx=True; asserts=final images identical to writes-only+drop; each effective finalize flushes once, repositions at the end and commits the right lengths (.shp length field, .shx 50+4k); finalize with nothing new does no seek/flush
+hist!(c09_t_polylinem_shx_ff, PolylineM, 640, 2, PL2, PL3, true, [2, 2]);
+// H: tier=thorough; unwind=60; sym=payload of shapes a,b (4 f64 each); history=[write a, write b, finalize] x {drop, finalize+drop}; shx=False; asserts=final images identical to writes-only+drop; each effective finalize flushes once, repositions at the end and commits the right lengths (.shp length field, .shx 50+4k); finalize with nothing new does no seek/flush
+hist!(c09_t_pointz_noshx_abf, PointZ, 384, 3, PT, PT, false, [0, 1, 2]);
+// H: tier=thorough; unwind=60; sym=payload of shapes a,b (4 f64 each); history=[finalize, write b, write a] x {drop, finalize+drop}; shx=False; asserts=final images identical to writes-only+drop; each effective finalize flushes once, repositions at the end and commits the right lengths (.shp length field, .shx 50+4k); finalize with nothing new does no seek/flush
+hist!(c09_t_pointz_noshx_fba, PointZ, 384, 3, PT, PT, false, [2, 1, 0]);
+// H: tier=thorough; unwind=60; sym=payload of shapes a,b (4 f64 each); history=[write a, finalize, finalize] x {drop, finalize+drop}; shx=False; asserts=final images identical to writes-only+drop; each effective finalize flushes once, repositions at the end and commits the right lengths (.shp length field, .shx 50+4k); finalize with nothing new does no seek/flush
+hist!(c09_t_pointz_noshx_aff, PointZ, 384, 3, PT, PT, false, [0, 2, 2]);
+// H: tier=thorough; unwind=60; sym=payload of shapes a,b (4 f64 each); history=[finalize, write a, write a] x {drop, finalize+drop}; shx=False; asserts=final images identical to writes-only+drop; each effective finalize flushes once, repositions at the end and commits the right lengths (.shp length field, .shx 50+4k); finalize with nothing new does no seek/flush
+hist!(c09_t_pointz_noshx_faa, PointZ, 384, 3, PT, PT, false, [2, 0, 0]);
+// H: tier=thorough; unwind=60; sym=payload of shapes a,b (3 f64 each); history=[finalize, write a, finalize, write b] x {drop, finalize+drop}; shx=True; asserts=final images identical to writes-only+drop; each effective finalize flushes once, repositions at the end and commits the right lengths (.shp length field, .shx 50+4k); finalize with nothing new does no seek/flush
+hist!(c09_t_pointm_shx_fafb, PointM, 448, 4, PT, PT, true, [2, 0, 2, 1]);
+// H: tier=thorough; unwind=60; sym=payload of shapes a,b (3 f64 each); history=[write a, finalize, finalize, write b] x {drop, finalize+drop}; shx=True; asserts=final images identical to writes-only+drop; each effective finalize flushes once, repositions at the end and commits the right lengths (.shp length field, .shx 50+4k); finalize with nothing new does no seek/flush
+hist!(c09_t_pointm_shx_affb, PointM, 448, 4, PT, PT, true, [0, 2, 2, 1]);
+// H: tier=thorough; unwind=60; sym=payload of shapes a,b (3 f64 each); history=[finalize, finalize, write a, finalize] x {drop, finalize+drop}; shx=True; asserts=final images identical to writes-only+drop; each effective finalize flushes once, repositions at the end and commits the right lengths (.shp length field, .shx 50+4k); finalize with nothing new does no seek/flush
+hist!(c09_t_pointm_shx_ffaf, PointM, 448, 4, PT, PT, true, [2, 2, 0, 2]);
+// H: tier=thorough; unwind=60; sym=payload of shapes a,b (3 f64 each); history=[write a, write b, finalize, write a] x {drop, finalize+drop}; shx=True; asserts=final images identical to writes-only+drop; each effective finalize flushes once, repositions at the end and commits the right lengths (.shp length field, .shx 50+4k); finalize with nothing new does no seek/flush
+hist!(c09_t_pointm_shx_abfa, PointM, 448, 4, PT, PT, true, [0, 1, 2, 0]);
+
+// H: tier=quick; sym=2 PointM; history=write_shapes([a,b]) (consumes the writer) vs write a, write b, drop; with shx; asserts=identical .shp and .shx
+#[kani::proof]
+#[kani::unwind(34)]
+fn c09_q_write_shapes_consumption() {
+    let ma = sym_spec(T_POINTM, &PT);
+    let mb = sym_spec(T_POINTM, &PT);
+    let v = vec![PointM::build(&ma), PointM::build(&mb)];
+    let mut shp = MemFile::<320>::new();
+    let mut shx = MemFile::<320>::new();
+    {
+        let w = ShapeWriter::with_shx(&mut shp, &mut shx);
+        let r = w.write_shapes(&v);
+        assert!(r.is_ok());
+        std::mem::forget(r);
+    }
+    let mut rshp = MemFile::<320>::new();
+    let mut rshx = MemFile::<320>::new();
+    {
+        let mut w = ShapeWriter::with_shx(&mut rshp, &mut rshx);
+        let r = w.write_shape(&v[0]);
+        std::mem::forget(r);
+        let r = w.write_shape(&v[1]);
+        std::mem::forget(r);
+    }
+    assert!(same_image(&shp, &rshp));
+    assert!(same_image(&shx, &rshx));
+    assert!(shp.len == 100 + 2 * 36 && get_i32_be(&shp.buf, 24) as usize * 2 == shp.len);
+    kani::cover!(true, "both routes compared");
+}
